@@ -60,7 +60,8 @@ func (builder *Builder) DeepCopy() Builder {
 }
 
 func (builder *Builder) AddToVeneerTrail(veneerName string) {
-	builder.VeneerTrail = append(builder.VeneerTrail, veneerName)
+	// builders are copied by value: never append into an array another copy may share
+	builder.VeneerTrail = append(append([]string(nil), builder.VeneerTrail...), veneerName)
 }
 
 func (builder *Builder) MakePath(builders Builders, pathAsString string) (Path, error) {
@@ -225,7 +226,8 @@ func (opt *Option) DeepCopy() Option {
 }
 
 func (opt *Option) AddToVeneerTrail(veneerName string) {
-	opt.VeneerTrail = append(opt.VeneerTrail, veneerName)
+	// options are copied by value: never append into an array another copy may share
+	opt.VeneerTrail = append(append([]string(nil), opt.VeneerTrail...), veneerName)
 }
 
 type OptionDefault struct {
